@@ -423,9 +423,8 @@ void verif::verif_case(Rng & rng, long idx, const std::string & tier) {
         std::printf("#stat belief_%s 1\n", shape == 0 ? "corner" : shape == 1 ? "face" : "interior");
         emitUpd(M, b, a, exact, k == 2);       // the third belief goes through the converted models
     }
-    // the pointer overloads called in place, one (b, a, o) per case.  Small S only: the Lean model of the unguarded
-    // in-place loop is a chain of closures whose evaluation cost grows exponentially with S.
-    if (S <= 6 && (!thorough || idx % 3 == 0)) {
+    // the pointer overloads called in place, one (b, a, o) per case
+    if (!thorough || idx % 3 == 0) {
         AI::Vector b = makeBelief(rng, S, st, (int)rng.below(3));
         emitInPlaceAll(M, b, rng.below(A), rng.below(O), exact);
     }
